@@ -35,17 +35,33 @@ THEOREMS = [
     'CC.C06_parallel', 'CC.C06_series', 'CC.C06_impl_early_correct', 'CC.C06_impl_eq_spec_partial',
     'CC.C06_floating_island_counterexample', 'CC.C06_exists', 'CC.C06_isolated_port',
     'CC.C06_port_invariant_perm', 'CC.C06_port_invariant_rename', 'CC.C06_port_invariant_reverse', 'CC.C06_port_invariant_reref',
+    # round 5 — the pruning / re-indexing path (CC/Properties/C06Prune.lean, lemmas in CC/Proofs/PortPrune.lean)
+    'CC.C06_prune_select_in_order', 'CC.C06_prune_countBefore_position', 'CC.C06_prune_dropped_zero',
+    'CC.C06_prune_extend_solves', 'CC.C06_impl_pruned_solution', 'CC.C06_impl_eq_spec_pruned',
+    'CC.C06_impl_eq_spec_kept_regular',      # CC/Properties/C06PruneReg.lean
+    # round 5 — element impedance, Voc / Isc, equivalent-source records (CC/Properties/C06Equiv.lean)
+    'CC.C06_elementImpedance_def', 'CC.C06_elementImpedance_spec', 'CC.C06_openCircuitVoltage_sound',
+    'CC.C06_shortCircuitCurrent_def', 'CC.C06_shortCircuitCurrent_spec',
+    'CC.C06_thevenin_record_terminal', 'CC.C06_norton_record_terminal',
 ]
+LEAN_MODULE_EXTRA = ['CC.Properties.C06Prune', 'CC.Properties.C06PruneReg', 'CC.Properties.C06Equiv']
 OPEN_STATEMENTS = [
     'CC.C06_impl_complete_statement (false for floating groups of nodes: C06_floating_island_counterexample)',
-    'code-level equality WITH pruned unknowns (a node on open branches only, e.g. a capacitor at w = 0): C06_impl_eq_spec_partial assumes '
-    'nothing pruned and a well-posed probe network, so the pruning / re-indexing path (keepMask, subMatrix, countBefore) is covered by no '
-    'theorem — model + correspondence + oracle only (C06_isolated_port covers the isolated PORT node)',
-    'elementImpedance, openCircuitVoltage, shortCircuitCurrent, Thevenin/Norton records, sweep / dcResistance and the jwL, 1/(jwC) clause: '
-    'model + correspondence + oracle only (no Lean theorem)',
+    'code-level equality WITH pruned unknowns: soundness is proved (C06_impl_eq_spec_pruned: PortZ defined and a number returned => the '
+    'number is PortZ; C06_impl_eq_spec_kept_regular: the pruned system handed to solve has at most one solution and a number is returned '
+    '=> PortZ is defined and is that number; any number of pruned unknowns).  Still open on this path: completeness (when does the function '
+    'return a number) — false in general (floating island), not characterised by a theorem; the caller-supplied node_index_mapper '
+    '(the model has the alphabetic default only)',
+    'openCircuitVoltage when numpy raises LinAlgError: the code falls back to the ZERO vector; C06_openCircuitVoltage_sound and everything '
+    'built on it (C06_shortCircuitCurrent_spec, C06_thevenin_record_terminal, C06_norton_record_terminal) assume the solver answers '
+    '(solve N.mnaA N.mnaB ≠ none); the fallback path has no theorem',
+    'equivalent-source records: proved as terminal equations V = U − Z·J and J = I − Y·V for every attached load; NOT proved: the same '
+    'statement phrased with an explicit equivalent NETWORK (source + series impedance as branches) solved by the model, the early-return / '
+    'isolated-port branches of nortonEquivalent and shortCircuitCurrent (ZeroDivisionError, NonFinite, Infinite), sweep / dcResistance and '
+    'the jwL, 1/(jwC) clause: model + correspondence + oracle only',
 ]
 ASSUMPTIONS = [
-    'the code-level theorem C06_impl_eq_spec_partial speaks about open_circuit_impedance on networks without pruned unknowns only; everything else at code level rests on the correspondence between CC/Model/Port.lean and the implementation and on the exact Spec oracle (op port_spec)',
+    'the code-level theorems speak about the MODEL CC/Model/Port.lean: C06_impl_eq_spec_partial (no pruned unknown, well-posed probe network), C06_impl_eq_spec_pruned (any pruned unknowns; hypothesis: PortZ is defined), C06_elementImpedance_*, C06_openCircuitVoltage_sound, C06_shortCircuitCurrent_*, C06_thevenin_record_terminal, C06_norton_record_terminal (hypotheses: valid network, solver answers, well-posed probe network, PortZ defined); that the model is the code rests on the correspondence and the exact Spec oracle (op port_spec)',
     'numpy.linalg.solve is a parameter of the model (certificates checked exactly by the driver); binary64 agrees with field arithmetic within 1e-7 relative on instances with cond < 1e8',
     'hand-written model CC/Model/Port.lean is tied to the code by the port_pre / port_z / elem_z / oc_voltage / sc_current / port_sweep correspondence only',
     'the per-frequency networks of Circuit/impedance.py are the implementation\'s own transform_circuit outputs (modelled under C02/C07)',
